@@ -19,7 +19,8 @@ static uint64_t fingerprint(const OpResult& o, std::string* text = nullptr)
     mixv(o.out.stream_bad);
     for (const auto& r : o.rec.reds) { mixv(uint64_t(r.rule)); mixv(r.digest); mixv(uint64_t(r.ctx)); }
     for (const auto& t : o.rec.termfs) { mixv(uint64_t(t.term)); mixv(uint64_t(t.off)); mixv(uint64_t(t.len)); }
-    for (const auto& l : o.rec.lexes) { mixv(uint64_t(l.pos)); mixv(uint64_t(l.idx)); mixv(uint64_t(l.len)); mixv(uint64_t(l.line)); mixv(uint64_t(l.col)); }
+    for (const auto& l : o.rec.lexes) { mixv(uint64_t(l.pos)); mixv(uint64_t(l.idx)); mixv(uint64_t(l.len)); mixv(uint64_t(l.line)); mixv(uint64_t(l.col)); mixv(uint64_t(l.inst_calls)); mixv(uint64_t(l.inst_last)); }
+    mixv(uint64_t(o.rec.lexer_state_clobbered));
     mixv(o.out.ctx_acc); mixv(uint64_t(o.out.ctx_touches));
     mixv(uint64_t(o.rec.n_new)); mixv(uint64_t(o.rec.n_copy)); mixv(uint64_t(o.rec.n_move)); mixv(uint64_t(o.rec.n_del)); mixv(uint64_t(o.rec.live_after));
     mixv(uint64_t(o.rec.steps)); mixv(uint64_t(o.rec.rds)); mixv(uint64_t(o.rec.oob_read + o.rec.oob_iter + o.rec.bounds_bad));
@@ -28,13 +29,16 @@ static uint64_t fingerprint(const OpResult& o, std::string* text = nullptr)
         *text = std::string("value=") + (o.out.has_value ? "yes" : "no") + " exc=" + std::to_string(o.out.exc) + " result=" + printable(o.out.text, 120) +
                 " wrote='" + printable(o.out.oss_text.empty() ? o.rec.wrote : o.out.oss_text, 160) + "' functor_calls=" + std::to_string(o.rec.reds.size()) +
                 " ctx=" + std::to_string(o.out.ctx_touches) + " steps=" + std::to_string(o.rec.steps);
+        if (!o.rec.lexes.empty())
+            *text += " lexer_object_at_first_request=(requests_seen=" + std::to_string(o.rec.lexes[0].inst_calls) + ",last_offset=" + std::to_string(o.rec.lexes[0].inst_last) + ")" +
+                     (o.rec.lexer_state_clobbered ? " lexer_members_clobbered=" + std::to_string(o.rec.lexer_state_clobbered) : std::string());
     }
     return h;
 }
 
 static PlanOp gen_any_op(Rng& rng, bool thorough)
 {
-    std::vector<std::string> pk = keys_for({ "G1", "G2", "G3", "G4", "G5", "G6", "G7", "G8", "G9", "G10", "G11", "G12", "G13", "G14", "G15", "G16", "T1" });
+    std::vector<std::string> pk = keys_for({ "G1", "G2", "G3", "G4", "G5", "G6", "G7", "G8", "G9", "G10", "G11", "G12", "G13", "G14", "G15", "G16", "G17", "G18", "T1" });
     std::vector<std::string> rk = regex_keys();
     uint64_t k = rng.below(100);
     PlanOp op;
@@ -94,7 +98,7 @@ static Plan gen_c15_cold(uint64_t seed, int64_t index)
     Plan p;
     p.seed = seed; p.index = index; p.property = "C15"; p.mode = "cold_start";
     p.interleaved_first = true;
-    std::vector<std::string> pk = keys_for({ "G1", "G2", "G3", "G4", "G5", "G6", "G7", "G8", "G9", "G10", "G11", "G12", "G13", "G14", "G15", "G16", "T1" });
+    std::vector<std::string> pk = keys_for({ "G1", "G2", "G3", "G4", "G5", "G6", "G7", "G8", "G9", "G10", "G11", "G12", "G13", "G14", "G15", "G16", "G17", "G18", "T1" });
     std::vector<PlanOp> ops;
     for (int k = 0; k < 5; ++k)
     {
